@@ -247,6 +247,14 @@ Definition c02_obs_full (tv : list (str * str * str)) (tc : list (str * key)) (t
   bs "ALL=" ++ c02_obs tv tc tcc l files ++
   concat_str (map (fun st => bs ";S=" ++ c02_obs tv tc tcc (with_steps l [st]) files) (l_steps l)).
 
+(* with the verdict of the full InTotoVerify / InTotoVerifyWithDirectory appended, for scenarios in which no
+   later stage can fail by construction (no rules, no inspections, no sublayouts, equal links, layout validly
+   signed and unexpired): accepted exactly when the threshold stage accepts *)
+Definition c02_obs_e2e (tv : list (str * str * str)) (tc : list (str * key)) (tcc : list (str * str * str))
+           (l : layout) (files : list (str * option env)) : str :=
+  let v := if has_prefix (c02_obs tv tc tcc l files) (bs "OK") then bs "ACCEPT" else bs "REJECT" in
+  c02_obs_full tv tc tcc l files ++ bs ";V=" ++ v ++ bs ";VD=" ++ v.
+
 (* loader observable: verdict of LoadLinksForLayout and, per step, the sorted key ids of the loaded map *)
 Definition c02_loaded (l : layout) (files : list (str * option env)) : str :=
   bs "LOAD=" ++ (if is_ok (load_all l files) then bs "OK" else bs "REJECT") ++ bs ";KEYS=" ++
